@@ -147,3 +147,37 @@ def get_initial_value(cx):
     cx.invariant(0, lambda st: CH(n - 1 - st['$i0'].t, toreal(st['result'])) == CH(n - 1, mono.t))
     cx.invariant(1, lambda st: toreal(st['result']) == FD(st['$i1'].t, CH(n - 1, mono.t)))
     cx.ensures(lambda st, r: toreal(r) == FD(z3.Length(frees.t), CH(n - 1, mono.t)))
+
+
+@contract(F, 'RecBuilder._reduce_powers', ['C03', 'C05', 'C01'])
+def reduce_powers(cx):
+    """power reduction preserves the VALUE of the polynomial on every state in which each finite variable has a value of its type: every term
+    coefficient * prod_i v_i**p_i is rebuilt as coefficient * prod_i reduce_power_i(p_i), the i-th power being reduced with the type of the i-th
+    finite variable (positional alignment of get_terms_with_vars' exponent vectors with program.finite_variables)."""
+    TS, mk, (acc_p, acc_r) = tuple_sort([DSeq(DI), DR])
+    poly = cx.real('poly'); fv = cx.seq('finite_variables', DRef('Symbol'))
+    VALUE = z3.Function('value_of_variable', REF, R); TYPE = z3.Function('type_of', REF, REF); VAROF = z3.Function('variable_of_type', REF, REF)
+    prog = cx.obj('Program', finite_variables=fv)
+    cx.param(self=cx.obj('RecBuilder', program=prog), poly=poly)
+    terms = cx.seq('terms_with_vars', DTuple(DSeq(DI), DR)); rest0 = cx.real('rest_without_vars')
+    nv = z3.Length(fv.t); t = z3.Int('t'); i = z3.Int('i'); pw = z3.Const('pw', z3.SeqSort(I)); vq = z3.Const('vq', REF)
+    PRODP = z3.RecFunction('product_of_powers', z3.SeqSort(I), I, R)
+    z3.RecAddDefinition(PRODP, [pw, i], z3.If(i <= 0, z3.RealVal(1), PRODP(pw, i - 1) * POW(VALUE(fv.t[i - 1]), pw[i - 1])))
+    SUMT = z3.RecFunction('sum_of_terms', I, R)
+    z3.RecAddDefinition(SUMT, [t], z3.If(t <= 0, z3.RealVal(0), SUMT(t - 1) + acc_r(terms.t[t - 1]) * PRODP(acc_p(terms.t[t - 1]), nv)))
+
+    def gtv(ex, st, r, a, kw):
+        if not (a[1].kind == 'seq' and a[1].t.eq(fv.t)): raise OutOfReach('get_terms_with_vars over another variable list')
+        st.pc += [toreal(a[0]) == rest0.t + SUMT(z3.Length(terms.t)),
+                  z3.ForAll([t], z3.Implies(z3.And(0 <= t, t < z3.Length(terms.t)), z3.Length(acc_p(terms.t[t])) == nv))]
+        return VTuple(terms, rest0)
+    cx.call('get_terms_with_vars', gtv, trusted='get_terms_with_vars(poly, vars): poly = rest + sum of coefficient * prod vars[i]**powers[i], exponent vectors aligned with vars (C03 bounded)')
+    cx.call('get_type', lambda ex, st, r, a, kw: V('ref', TYPE(a[0].t)))
+    cx.axiom(z3.ForAll([vq], VAROF(TYPE(vq)) == vq))
+    cx.set_hook('materialise', ('finite_types',))
+    cx.call('reduce_power', lambda ex, st, r, a, kw: VR(POW(VALUE(VAROF(r.t)), toint(a[0]))),
+            trusted='Finite.reduce_power contract (contracts/misc.py): equals variable**power at every value of the type')
+    cx.invariant(0, lambda st: toreal(st['result']) == rest0.t + SUMT(st['$i0'].t))
+    cx.invariant(1, lambda st: z3.And(toreal(st['term']) == toreal(st['rest']) * PRODP(st['var_powers'].t, st['$i1'].t),
+                                      toreal(st['result']) == rest0.t + SUMT(st['$i0'].t)))
+    cx.ensures(lambda st, r: toreal(r) == poly.t)
